@@ -196,24 +196,27 @@ theorem appWF_replApp (a : CApp) (p r : CItem) (hwa : AppWF a) (hok : ReplOK a p
     (Failing → Failed when its last placeholder goes: KNOWN_FINDINGS C03.I7t); it no longer completes there (the former
     I7c variant: Completing → Completed right before the real allocation was added). -/
 theorem replApp_leaves_only_failing (p r : CItem) (a : CApp) (h : (replApp p r a).live = false) :
-    a.state = "Failing" ∨ terminated a.state = true := by
+    (a.state = "Failing" ∧ isZero (some a.allocated) = true) ∨ terminated a.state = true := by
   have hl : (replApp p r a).live =
-      !(terminated (if (isZero (some (prune (subX a.allocatedPh p.res))) && (a.state == "Failing" || a.state == "Resuming")) = true then
+      !(terminated (if (isZero (some (prune (subX a.allocatedPh p.res))) &&
+          ((a.state == "Failing" && isZero (some a.allocated)) || a.state == "Resuming")) = true then
         (if (a.state == "Failing") = true then fireState a.state .fail else fireState a.state .run) else a.state)) := by
     unfold replApp; simp
   rw [hl] at h
-  by_cases hF : a.state = "Failing"
+  by_cases hF : a.state = "Failing" ∧ isZero (some a.allocated) = true
   · exact Or.inl hF
   · right
-    have hF' : (a.state == "Failing") = false := by simpa using hF
-    rw [hF'] at h
-    simp only [Bool.false_or, Bool.false_eq_true, if_false] at h
     split at h
     · rename_i hc
-      simp only [Bool.and_eq_true, beq_iff_eq] at hc
-      rw [hc.2] at h
-      have : (!terminated (fireState "Resuming" AppEvent.run)) = true := by decide
-      rw [this] at h; cases h
+      simp only [Bool.and_eq_true, Bool.or_eq_true, beq_iff_eq] at hc
+      rcases hc.2 with hc2 | hc2
+      · exact absurd hc2 hF
+      · have hne : (a.state == "Failing") = false := by rw [hc2]; decide
+        rw [hne] at h
+        simp only [Bool.false_eq_true, if_false] at h
+        rw [hc2] at h
+        have : (!terminated (fireState "Resuming" AppEvent.run)) = true := by decide
+        rw [this] at h; cases h
     · simpa using h
 
 end Yk
